@@ -487,6 +487,12 @@ impl Runner {
                 }
             }
         }
+        // with several connections on the victim's endpoint: the ID that very connection sends to
+        if let Some(slot) = self.w.nodes[to].conns.get(&c) {
+            if !slot.last_dcid.is_empty() {
+                dcid = Some(slot.last_dcid.clone());
+            }
+        }
         let t = self.w.now_us;
         let Some(dcid) = dcid else {
             self.w
